@@ -87,7 +87,6 @@ type rig struct {
 	closed   chan struct{} // closed by close(); handlers select on it
 	hmu      sync.Mutex
 	handlers map[string]*hctl
-	hwg      sync.WaitGroup
 }
 
 // newRig starts a server on an in-memory connection and performs the preface and
@@ -384,12 +383,24 @@ func (r *rig) close() (clean bool) {
 	case <-time.After(watchdog):
 		clean = false
 	}
-	done := make(chan struct{})
-	go func() { r.hwg.Wait(); close(done) }()
-	select {
-	case <-done:
-	case <-time.After(watchdog):
-		clean = false
+	// wait for every handler that has started (one that the server spawned but that has
+	// not reached its first statement yet only looks at r.closed and returns)
+	r.hmu.Lock()
+	hs := make([]*hctl, 0, len(r.handlers))
+	for _, h := range r.handlers {
+		hs = append(hs, h)
+	}
+	r.hmu.Unlock()
+	for _, h := range hs {
+		select {
+		case <-h.started:
+			select {
+			case <-h.exited:
+			case <-time.After(watchdog):
+				clean = false
+			}
+		default:
+		}
 	}
 	return clean
 }
@@ -465,8 +476,6 @@ func (r *rig) serveHTTP(w bfe_http.ResponseWriter, req *bfe_http.Request) {
 		w.WriteHeader(599)
 		return
 	}
-	r.hwg.Add(1)
-	defer r.hwg.Done()
 	h.method = req.Method
 	h.reqHdr = req.Header
 	close(h.started)
